@@ -52,6 +52,7 @@ def main():
         return subprocess.call(["/venv/bin/python", "-m", "dst"] + rest, env=env, cwd="/verif")
     finally:
         shutil.rmtree(dst, ignore_errors=True)
+        shutil.rmtree(f"/tmp/scratch/dst-out-mut-{os.getpid()}", ignore_errors=True)
 
 if __name__ == "__main__":
     sys.exit(main())
